@@ -1184,14 +1184,29 @@ func ruleC16TableCopy(c *Ctx) {
 				}
 			}
 			okClone := false
-			if cc, ok := tableArg.(*ssa.Call); ok && core.CalleeKey(&cc.Call) == "maps.Clone" && loadedFromGlobal(cc.Call.Args[0]) != nil {
-				okClone = true
+			if tableArg != nil {
+				srcs := traceSourcesDeep(tableArg)
+				okClone = len(srcs) > 0
+				for _, src := range srcs {
+					cc, ok := src.(*ssa.Call)
+					if !ok || core.CalleeKey(&cc.Call) != "maps.Clone" || loadedFromGlobal(cc.Call.Args[0]) == nil {
+						okClone = false
+					}
+				}
 			}
 			c.R.Check(okClone, rule, core.FuncName(originOf(fn))+":table-argument", c.pos(call), "the type table handed to the recursion is a per-call clone of the package table", "the type table handed to the recursion is not a per-call maps.Clone of the package table: TypeSchemas of one call would leak into the next, or concurrent calls race")
 			// the seen set is fresh
 			for pi, p := range m.fn.Params {
 				if mt, ok := p.Type().Underlying().(*types.Map); ok && tBool(mt.Elem()) {
-					_, isMake := call.Call.Args[pi].(*ssa.MakeMap)
+					isMake := false
+					if srcs := traceSourcesDeep(call.Call.Args[pi]); len(srcs) > 0 {
+						isMake = true
+						for _, src := range srcs {
+							if _, ok := src.(*ssa.MakeMap); !ok {
+								isMake = false
+							}
+						}
+					}
 					c.R.Check(isMake, rule, core.FuncName(originOf(fn))+":seen-argument", c.pos(call), "the cycle set is fresh per call", "the cycle set handed to the recursion is not a fresh map")
 				}
 			}
@@ -1367,6 +1382,13 @@ func (c *Ctx) mentionsNamedField(v ssa.Value, name string, depth int) bool {
 		return false
 	}
 	switch x := v.(type) {
+	case *ssa.Parameter:
+		for _, src := range c.paramSources(x) {
+			if c.mentionsNamedField(src, name, depth-1) {
+				return true
+			}
+		}
+		return false
 	case *ssa.Field:
 		return core.CanonFieldOf(x.X.Type(), x.Field) == name || c.mentionsNamedField(x.X, name, depth-1)
 	case *ssa.UnOp:
